@@ -349,6 +349,18 @@ func (e *Enc) constGlobal(name string, t types.Type) (string, bool) {
 				e.assumedGlobals = append(e.assumedGlobals, name)
 			}
 		}
+		if elems, ok := e.ctx.initStrings[name]; ok && so == "Slice" {
+			// table of string constants: its elements in the initial element heap
+			if sl, isSl := t.Underlying().(*types.Slice); isSl {
+				h := e.sorts().ElemHeap(sl.Elem())
+				e.touch(h)
+				h0 := e.initConst(h)
+				e.decls = append(e.decls, fmt.Sprintf("(assert (and (> (s.arr %s) 0) (= (s.len %s) %d)))", sym, sym, len(elems)))
+				for i, el := range elems {
+					e.decls = append(e.decls, fmt.Sprintf("(assert (= (select (select %s (s.arr %s)) (at (s.off %s) %d)) %s))", h0, sym, sym, i, smtString(el)))
+				}
+			}
+		}
 		if so == "Slice" {
 			e.decls = append(e.decls, fmt.Sprintf("(assert (and (>= (s.arr %s) 0) (<= (s.arr %s) 100000) (>= (s.off %s) 0) (>= (s.len %s) 0) (>= (s.cap %s) (s.len %s))))", sym, sym, sym, sym, sym, sym))
 		}
@@ -577,6 +589,52 @@ func (e *Enc) emitBoundFacts(st *State) {
 	}
 }
 
+// emitEntryClosed: the heap the function is entered with is closed — an object that exists on
+// entry only refers to objects that exist on entry. (Cells above the entry allocation mark are
+// unconstrained: code without a body may later hand out objects living there.)
+func (e *Enc) emitEntryClosed() {
+	if e.relevant == nil {
+		return
+	}
+	names := make([]string, 0, len(e.relevant))
+	for k := range e.relevant {
+		names = append(names, k)
+	}
+	sort.Strings(names)
+	save := e.curBlock
+	e.curBlock = nil
+	defer func() { e.curBlock = save }()
+	a0 := e.entry.get(allocHeap)
+	for _, k := range names {
+		h := e.relevant[k]
+		if h.Elem == 0 {
+			continue
+		}
+		cur := e.entry.get(h)
+		val := func(t string) string {
+			if h.Elem == 2 {
+				return "(s.arr " + t + ")"
+			}
+			return t
+		}
+		e.nquant++
+		qa, qb := fmt.Sprintf("qe!%d", e.nquant), fmt.Sprintf("qf!%d", e.nquant)
+		switch h.Kind {
+		case HField, HCell, HChan:
+			sel := "(select " + cur + " " + qa + ")"
+			e.fact(fmt.Sprintf("(forall ((%s Int)) (! (=> (<= %s %s) (<= %s %s)) :pattern (%s)))", qa, qa, a0, val(sel), a0, sel))
+		case HElem:
+			sel := "(select (select " + cur + " " + qa + ") " + qb + ")"
+			e.fact(fmt.Sprintf("(forall ((%s Int) (%s Int)) (! (=> (<= %s %s) (<= %s %s)) :pattern (%s)))", qa, qb, qa, a0, val(sel), a0, sel))
+		case HMapV:
+			ks := strings.TrimPrefix(h.Sort, "(Array Int (Array ")
+			ks = ks[:strings.Index(ks, " ")]
+			sel := "(select (select " + cur + " " + qa + ") " + qb + ")"
+			e.fact(fmt.Sprintf("(forall ((%s Int) (%s %s)) (! (=> (<= %s %s) (<= %s %s)) :pattern (%s)))", qa, qb, ks, qa, a0, val(sel), a0, sel))
+		}
+	}
+}
+
 // zeroInit writes the zero value of t at ref.
 func (e *Enc) zeroInit(st *State, ref string, t types.Type) {
 	s := e.sorts()
@@ -666,16 +724,17 @@ func (e *Enc) run() (err error) {
 		t := e.declare("fv$"+fv.Name(), "Int")
 		e.vals[fv] = t
 		e.typeFactsAt(t, fv.Type(), e.entry)
+		e.emit("(assert (> " + t + " 0))") // a captured variable's address is never nil
 		// a free variable is a pointer to the captured variable: contracts refer to the
 		// captured variable by name, meaning its value when the closure is entered
-		if pl := e.placeOf(fv); pl != nil && pl.kind == 2 {
-			e.params[fv.Name()] = TV{Term: e.loadPlace(pl, e.entry), Sort: e.sorts().SortOf(pl.T), T: pl.T}
-		}
+		// (captured variables are resolved by name through resolveLocal, in the state the
+		// expression is evaluated in: `x` at a return is its current value, `old(x)` its value on entry)
 	}
+	e.emitEntryClosed()
 	// requires
 	if e.fc != nil {
 		for i, cl := range e.fc.Requires {
-			c := e.evalCtx(e.entry, nil, e.params, nil, fmt.Sprintf("%s requires#%d", e.key, i+1))
+			c := e.evalCtx(e.entry, nil, e.params, func(name string, rs *State) (TV, bool) { return e.resolveLocal(name, nil, rs) }, fmt.Sprintf("%s requires#%d", e.key, i+1))
 			e.emit("(assert " + c.boolTerm(cl.E) + ")")
 		}
 		// vacuity: the precondition (with type facts) must be satisfiable
@@ -699,7 +758,7 @@ func (e *Enc) typeFactsAt(term string, t types.Type, st *State) {
 	e.curBlock = save
 }
 
-func (e *Enc) evalCtx(st, old *State, vars map[string]TV, resolve func(string) (TV, bool), where string) *EvalCtx {
+func (e *Enc) evalCtx(st, old *State, vars map[string]TV, resolve func(string, *State) (TV, bool), where string) *EvalCtx {
 	var pkg *types.Package
 	pkgPath := ""
 	if e.fc != nil {
@@ -1120,10 +1179,13 @@ func (e *Enc) doneHeap(r *ssa.Range) Heap {
 }
 
 // resolver for names at a loop head.
-func (e *Enc) loopResolver(li *loopInfo, st *State, phiVal func(*ssa.Phi) string, from *ssa.BasicBlock) func(string) (TV, bool) {
+func (e *Enc) loopResolver(li *loopInfo, st0 *State, phiVal func(*ssa.Phi) string, from *ssa.BasicBlock) func(string, *State) (TV, bool) {
 	s := e.sorts()
-	var self func(name string) (TV, bool)
-	self = func(name string) (TV, bool) {
+	var self func(name string, st *State) (TV, bool)
+	self = func(name string, st *State) (TV, bool) {
+		if st == nil {
+			st = st0
+		}
 		// #iter$N / #done$N / #range$N: the same notions for the enclosing loop with ordinal N
 		if strings.HasPrefix(name, "#") && strings.Contains(name, "$") {
 			parts := strings.SplitN(name, "$", 2)
@@ -1131,7 +1193,7 @@ func (e *Enc) loopResolver(li *loopInfo, st *State, phiVal func(*ssa.Phi) string
 			fmt.Sscanf(parts[1], "%d", &n)
 			for _, other := range e.loops {
 				if other.ordinal == n && other != li && other.body[li.head] {
-					return e.loopResolver(other, st, func(p *ssa.Phi) string { return e.term(p) }, from)(parts[0])
+					return e.loopResolver(other, st, func(p *ssa.Phi) string { return e.term(p) }, from)(parts[0], st)
 				}
 			}
 			return TV{}, false
@@ -1549,7 +1611,12 @@ func (e *Enc) encodeInstr(in ssa.Instruction, st *State) {
 	case *ssa.If, *ssa.Jump:
 		return
 	case *ssa.Send:
-		return
+		// ghost record of the send: last value and number of sends per channel (blocking is not modelled)
+		ct := in.Chan.Type().Underlying().(*types.Chan)
+		hv, hn := s.ChanHeaps(ct.Elem())
+		ch, v := e.term(in.Chan), e.term(in.X)
+		st.set(hv, e.define(e.freshName(hv.Name), hv.Sort, fmt.Sprintf("(store %s %s %s)", st.get(hv), ch, v)))
+		st.set(hn, e.define(e.freshName(hn.Name), hn.Sort, fmt.Sprintf("(store %s %s (+ (select %s %s) 1))", st.get(hn), ch, st.get(hn), ch)))
 	case *ssa.Select:
 		e.havocVal(in)
 		e.warn("select statement: result havocked")
@@ -1891,6 +1958,9 @@ func (e *Enc) encodeReturn(in *ssa.Return, st *State) {
 	res := e.resultVars(in)
 	for i, cl := range e.fc.Ensures {
 		retBlock := in.Block()
+		if cl.At != "" && !strings.Contains(e.ctx.sourceLine(e.fn, in.Pos()), cl.At) {
+			continue
+		}
 		label := cl.Label
 		if label == "" {
 			label = fmt.Sprint(i + 1)
@@ -1898,7 +1968,7 @@ func (e *Enc) encodeReturn(in *ssa.Return, st *State) {
 		// one obligation per conjunct (of the clause, or of the consequent of an implication)
 		parts := splitEnsures(cl.E)
 		for pi, pe := range parts {
-			c := e.evalCtx(st, e.entry, mergeVars(res, e.params), func(name string) (TV, bool) { return e.resolveLocal(name, retBlock, st) }, fmt.Sprintf("%s ensures#%d", e.key, i+1))
+			c := e.evalCtx(st, e.entry, mergeVars(res, e.params), func(name string, rs *State) (TV, bool) { return e.resolveLocal(name, retBlock, rs) }, fmt.Sprintf("%s ensures#%d", e.key, i+1))
 			goal := c.boolTerm(pe)
 			name := label
 			src := cl.Src
